@@ -75,6 +75,13 @@ func (c18) Run(c *Ctx, i int) CaseResult {
 	res := CaseResult{ID: fmt.Sprintf("gen:%d", i)}
 	b, _ := json.Marshal(hc)
 	res.Key = string(b)
+	if i%4 == 0 {
+		if uf := UploadThroughGateway(c.Rand(i + 43000000)); len(uf) > 0 {
+			res.Nontrivial = true
+			res.Fails = uf
+			return res
+		}
+	}
 	capx := &CaptureExec{}
 	store := GenStore(rand.New(rand.NewSource(5)), false)
 	f, err := NewFed(FixedFed(), store, gateway.WithExecutor(capx))
@@ -261,7 +268,7 @@ func init() { Runners["C18"] = c18{} }
 var uploadValid = []string{"variables.f", "variables.fs.0", "variables.fs.1", "variables.o.f", "variables.o.l.0.f", "variables.o.l.1.f", "variables.nested.0.0", "variables.nested.1.0", "variables.g"}
 var uploadInvalid = []string{"variables.s", "variables.fs", "variables.fs.2", "variables.fs.-1", "variables.fs.x", "variables.missing", "variables", "", "variables.o", "vars.f",
 	"variables.f.g", "variables..f", "variables.o.l.2.f", "variables.nested.0", "variables.nested.0.1", "variables.n", "variables.o.l.0"}
-var uploadOdd = []string{"variables.fs.+1", "variables.fs.01", "variables.fs.-0", "variables.fs.1_0", "variables.fs. 1", "variables.fs.1e0", "variables.fs.0x1"}
+var uploadOdd = []string{"variables.fs.9223372036854775808", "variables.fs.18446744073709551615", "variables.fs.99999999999999999999999", "variables.nested.0.18446744073709551615", "variables.fs.+1", "variables.fs.01", "variables.fs.-0", "variables.fs.1_0", "variables.fs. 1", "variables.fs.1e0", "variables.fs.0x1"}
 
 // genUploadCase: mostly valid multipart requests; what varies is the map
 func genUploadCase(r *rand.Rand) HTTPCase {
@@ -314,7 +321,7 @@ func genUploadCase(r *rand.Rand) HTTPCase {
 				case k < 10:
 					p = fmt.Sprintf("%d.%s", r.Intn(nops), p)
 				case k == 10:
-					p = fmt.Sprintf("%d.%s", []int{-1, nops, 9}[r.Intn(3)], p)
+					p = fmt.Sprintf("%s.%s", []string{"-1", fmt.Sprint(nops), "9", "9223372036854775808", "18446744073709551615", "18446744073709551616"}[r.Intn(6)], p)
 				}
 			} else if r.Intn(25) == 0 {
 				p = "0." + p
